@@ -76,9 +76,14 @@ func (t *float64Scalar) CoerceOut(v interface{}) (interface{}, error) {
 	case nil:
 		// remains nil
 	case float32:
+		if math.IsNaN(float64(tv)) || math.IsInf(float64(tv), 0) {
+			return nil, newCoerceErr(v, "Float64")
+		}
 		v = float64(tv)
 	case float64:
-		// ok as is
+		if math.IsNaN(tv) || math.IsInf(tv, 0) {
+			return nil, newCoerceErr(v, "Float64")
+		}
 	case int:
 		v = float64(tv)
 	case int8:
@@ -102,6 +107,9 @@ func (t *float64Scalar) CoerceOut(v interface{}) (interface{}, error) {
 	case string:
 		var f float64
 		if f, err = strconv.ParseFloat(tv, 64); err == nil {
+			if math.IsNaN(f) || math.IsInf(f, 0) {
+				return nil, newCoerceErr(v, "Float64")
+			}
 			v = f
 		}
 	default:
